@@ -519,8 +519,9 @@ func c20(encoderOnly bool) {
 				continue
 			}
 		}
-		if c.Eintr != 0 && want && o.RC != pamSuccess {
-			// an interrupted system call may make the module give up: failing closed is allowed
+		if (c.Eintr != 0 || c.Script.Read != "full") && want && o.RC != pamSuccess {
+			// an interrupted system call, or a server that answers and closes without reading the request
+			// (the module's own write may then fail), may make the module give up: failing closed is allowed
 			R.Count("eintr_gave_up", 1)
 		} else if (o.RC == pamSuccess) != want {
 			kind := "success-without-ok"
